@@ -32,9 +32,12 @@ type Checkpoint struct {
 	State    map[int]map[string]KeyState `json:"state"`
 	Infected map[int][]string            `json:"infected,omitempty"`
 	// HistLen[k] = number of client ops on k issued so far
-	HistLen  map[string]int             `json:"hist_len"`
-	Extended bool                       `json:"extended"`
-	Subs     map[*SubLog][]Notification `json:"-"`
+	HistLen  map[string]int `json:"hist_len"`
+	Extended bool           `json:"extended"`
+	// NotQuiescent: the quiescence watchdog expired; only oracles that do not need a
+	// quiescent state may use this checkpoint.
+	NotQuiescent bool                       `json:"not_quiescent,omitempty"`
+	Subs         map[*SubLog][]Notification `json:"-"`
 }
 
 type ClusterTrace struct {
@@ -85,6 +88,9 @@ func init() {
 		ChFeedback: {Delay: 100, MaxDelay: 40 * ms},
 	})
 }
+
+// QuiesceWatchdog bounds every wait for observed quiescence (expiry -> inconclusive).
+var QuiesceWatchdog = 45 * time.Second
 
 // Checker is the property oracle: called at every quiescent checkpoint. With report=false
 // it only says whether the checkpoint satisfies it (a failing checkpoint is re-taken after
@@ -147,8 +153,12 @@ func (t *ClusterTrace) TakeCheckpoint(ctx context.Context, phase string, round i
 // on failure it waits for a far longer quiescent streak and re-takes it before reporting.
 func (t *ClusterTrace) QuiesceAndCheck(ctx context.Context, phase string, round int, keys []string, check Checker) bool {
 	c := t.Cluster
-	if err := c.WaitQuiesced(ctx, 8, 90*time.Second); err != nil {
+	if err := c.WaitQuiesced(ctx, 8, QuiesceWatchdog); err != nil {
 		t.Inconclusive = "no-quiescence:" + phase
+		if cp, err := t.TakeCheckpoint(ctx, phase, round, keys); err == nil && check != nil {
+			cp.NotQuiescent = true
+			check(t, cp, true)
+		}
 		return false
 	}
 	cp, err := t.TakeCheckpoint(ctx, phase, round, keys)
@@ -160,7 +170,7 @@ func (t *ClusterTrace) QuiesceAndCheck(ctx context.Context, phase string, round 
 		t.Checkpoints = append(t.Checkpoints, cp)
 		return true
 	}
-	if err := c.WaitQuiesced(ctx, 50, 90*time.Second); err != nil {
+	if err := c.WaitQuiesced(ctx, 50, QuiesceWatchdog); err != nil {
 		t.Inconclusive = "no-quiescence-extended:" + phase
 		return false
 	}
@@ -170,8 +180,8 @@ func (t *ClusterTrace) QuiesceAndCheck(ctx context.Context, phase string, round 
 		return false
 	}
 	cp.Extended = true
+	check(t, cp, true) // sees t.Checkpoints without cp: "previous checkpoint" stays the previous one
 	t.Checkpoints = append(t.Checkpoints, cp)
-	check(t, cp, true)
 	return true
 }
 
